@@ -1,23 +1,30 @@
-//! C02 — real `BookedVersions` / `VersionsSnapshot::insert_db` / `from_conn` / `generate_sync`
-//! on a real cr-sqlite database vs the Lean model `Corro.Book`.
+//! C02 — real `process_multiple_changes` / `BookedVersions` / `VersionsSnapshot::insert_db` /
+//! `from_conn` / `generate_sync` on a real agent's cr-sqlite database vs the Lean model `Corro.Book`.
 //!
 //! ops:  `insert <ranges>` · `partial <v> <lo-hi> <last_seq>` · `reload` · `sync`
-//! One case = one origin actor on one node, starting from an empty database.
-use std::collections::{BTreeMap, BTreeSet, HashMap};
+//! One case = one origin actor (fresh id) as seen by one node, starting with nothing known about it.
+//! The node is a real `Agent` built by `klukai_agent::agent::setup` once per process; its background
+//! loops are NOT started: the harness holds the receiving ends of the `apply` and `clear_buf`
+//! channels, ignores apply requests (a completed partial stays "apply pending") and runs the
+//! clear-buffered-meta job for every request synchronously after the batch.
+//!   insert  = one `process_multiple_changes` batch of `Changeset::Empty { versions }`, one per range
+//!   partial = one `process_multiple_changes` batch with `Changeset::Full { version, changes: [], seqs, last_seq }`
+//!   reload  = `BookedVersions::from_conn` on the node's database + `Bookie::replace_actor` (what a restart does)
+//!   sync    = `generate_sync` on the node's `Bookie`
+use std::collections::{BTreeMap, BTreeSet};
 use std::path::PathBuf;
-use std::sync::{Arc, OnceLock};
 use std::sync::atomic::{AtomicU64, Ordering};
+use std::sync::{Mutex, OnceLock};
+use std::time::{Duration, Instant};
 
-use klukai_agent::agent::util::{process_empty_version, process_incomplete_version};
+use klukai_agent::agent::{AgentOptions, process_multiple_changes, setup};
 use klukai_types::actor::ActorId;
-use klukai_types::agent::{BookedVersions, Bookie, KnownDbVersion, migrate};
+use klukai_types::agent::{Agent, BookedVersions, Bookie};
 use klukai_types::base::{CrsqlDbVersion, CrsqlSeq};
-use klukai_types::broadcast::{ChangesetParts, Timestamp};
-use klukai_types::sqlite::{CrConn, setup_conn};
-use klukai_types::sqlite_pool::InterruptibleTransaction;
+use klukai_types::broadcast::{ChangeSource, ChangeV1, Changeset, Timestamp};
+use klukai_types::config::Config;
 use klukai_types::sync::generate_sync;
-use rangemap::RangeInclusiveSet;
-use rusqlite::Connection;
+use klukai_types::tripwire::Tripwire;
 
 use crate::rng::Rng;
 use crate::runner::{CaseResult, Prop, Tier};
@@ -28,8 +35,10 @@ pub struct C02;
 const TMP_ROOT: &str = "/verif/harness/target/tmp";
 static COUNTER: AtomicU64 = AtomicU64::new(0);
 
-fn actor() -> ActorId {
-    ActorId(uuid::Uuid::from_u128(0xC02C_02C0_2C02_4C02_8C02_C02C_02C0_2C02))
+/// a fresh origin per case (the node keeps nothing about the previous ones)
+fn fresh_actor() -> ActorId {
+    let n = COUNTER.fetch_add(1, Ordering::SeqCst) as u128;
+    ActorId(uuid::Uuid::from_u128(0xC02C_02C0_2C02_4C02_8C02_0000_0000_0000 + n + 1))
 }
 
 // ------------------------------------------------------------------ independent oracle
@@ -40,8 +49,6 @@ fn actor() -> ActorId {
 struct Hist {
     /// versions that went through `insert_db` (complete, cleared or partial)
     touched: BTreeSet<u64>,
-    /// versions inserted as complete / cleared
-    complete: BTreeSet<u64>,
     /// partial versions: received seqs and last_seq
     partial: BTreeMap<u64, (BTreeSet<u64>, u64)>,
 }
@@ -73,6 +80,15 @@ impl Hist {
             Some((seqs, _)) => (lo..=hi).all(|s| seqs.contains(&s)),
         }
     }
+    /// the version is known as a whole: received, and not just in part
+    fn knows_whole(&self, v: u64) -> bool {
+        self.touched.contains(&v) && self.missing_seqs(v).is_empty()
+    }
+    /// a whole version (cleared / complete) arrived: whatever was buffered of it is superseded
+    fn whole(&mut self, v: u64) {
+        self.touched.insert(v);
+        self.partial.remove(&v);
+    }
 }
 
 fn points(rs: &[(u64, u64)]) -> BTreeSet<u64> {
@@ -92,212 +108,269 @@ fn to_ranges(s: &BTreeSet<u64>) -> Vec<(u64, u64)> {
 
 // ------------------------------------------------------------------ the real thing
 
-struct Real {
+/// the node: a real agent without its background loops
+struct NodeCtx {
+    rt: tokio::runtime::Runtime,
     dir: PathBuf,
-    conn: CrConn,
-    bv: BookedVersions,
+    agent: Agent,
+    bookie: Bookie,
+    /// keeps every channel of the agent open; `rx_apply` / `rx_clear_buf` are drained after each batch
+    opts: Mutex<AgentOptions>,
+    _trip_tx: tokio::sync::mpsc::Sender<()>,
 }
 
-/// A migrated, empty database is built once per process (real `CrConn::init` + `setup_conn` +
-/// `migrate`); every case works on its own copy of that file in its own directory.
-fn template() -> Result<&'static PathBuf, String> {
-    static T: OnceLock<Result<PathBuf, String>> = OnceLock::new();
-    T.get_or_init(|| {
-        let dir = PathBuf::from(format!("{TMP_ROOT}/c02-{}-template", std::process::id()));
+fn node() -> Result<&'static NodeCtx, String> {
+    static N: OnceLock<Result<NodeCtx, String>> = OnceLock::new();
+    N.get_or_init(|| {
+        let dir = PathBuf::from(format!("{TMP_ROOT}/c02-{}", std::process::id()));
         let _ = std::fs::remove_dir_all(&dir);
-        std::fs::create_dir_all(&dir).map_err(|e| format!("tmp dir: {e}"))?;
-        let path = dir.join("db.sqlite");
-        {
-            let mut conn = CrConn::init(Connection::open(&path).map_err(|e| e.to_string())?).map_err(|e| e.to_string())?;
-            setup_conn(&conn).map_err(|e| e.to_string())?;
-            migrate(Arc::new(uhlc::HLC::default()), &mut conn).map_err(|e| e.to_string())?;
-            conn.execute_batch("PRAGMA wal_checkpoint(TRUNCATE);").map_err(|e| e.to_string())?;
-        }
-        Ok(path)
+        std::fs::create_dir_all(dir.join("schema")).map_err(|e| format!("tmp dir: {e}"))?;
+        let conf: Config = Config::builder()
+            .api_addr("127.0.0.1:0".parse().unwrap())
+            .gossip_addr("127.0.0.1:0".parse().unwrap())
+            .admin_path(dir.join("admin.sock").display().to_string())
+            .db_path(dir.join("corrosion.db").display().to_string())
+            .add_schema_path(dir.join("schema").display().to_string())
+            .build()
+            .map_err(|e| e.to_string())?;
+        let rt = tokio::runtime::Builder::new_multi_thread().worker_threads(2).enable_all().build().map_err(|e| e.to_string())?;
+        let (tripwire, worker, trip_tx) = Tripwire::new_simple();
+        let (agent, opts) = rt.block_on(async move {
+            tokio::spawn(worker);
+            setup(conf, tripwire).await.map_err(|e| format!("{e:#}"))
+        })?;
+        let bookie = Bookie::new(Default::default());
+        Ok(NodeCtx { rt, dir, agent, bookie, opts: Mutex::new(opts), _trip_tx: trip_tx })
     })
     .as_ref()
     .map_err(|e| e.clone())
 }
 
-fn open_db() -> Result<(PathBuf, CrConn), String> {
-    let tpl = template()?;
-    let n = COUNTER.fetch_add(1, Ordering::SeqCst);
-    let dir = PathBuf::from(format!("{TMP_ROOT}/c02-{}-{n}", std::process::id()));
-    let _ = std::fs::remove_dir_all(&dir);
-    std::fs::create_dir_all(&dir).map_err(|e| format!("tmp dir: {e}"))?;
-    let path = dir.join("db.sqlite");
-    std::fs::copy(tpl, &path).map_err(|e| format!("copy template: {e}"))?;
-    let conn = CrConn::init(Connection::open(&path).map_err(|e| e.to_string())?).map_err(|e| e.to_string())?;
-    setup_conn(&conn).map_err(|e| e.to_string())?;
-    // durability against power loss is not what is tested here: skip the fsyncs
-    conn.execute_batch("PRAGMA synchronous = OFF;").map_err(|e| e.to_string())?;
-    Ok((dir, conn))
-}
-
-impl Drop for Real {
-    fn drop(&mut self) {
-        let _ = std::fs::remove_dir_all(&self.dir);
-    }
-}
-
-fn err_kind(e: &rusqlite::Error) -> String {
-    let s = e.to_string();
-    if s.contains("__corro_bookkeeping_gaps") && s.contains("UNIQUE") {
+fn err_kind(e: &str) -> String {
+    if e.contains("__corro_bookkeeping_gaps") && e.contains("UNIQUE") {
         "err insert-conflict".into()
-    } else if s.contains("__corro_seq_bookkeeping") && s.contains("UNIQUE") {
+    } else if e.contains("__corro_seq_bookkeeping") && e.contains("UNIQUE") {
         "err seq-conflict".into()
-    } else if matches!(e, rusqlite::Error::StatementChangedRows(_)) {
+    } else if e.contains("Query changed") {
         "err seq-non-contiguous".into()
     } else {
-        format!("err sqlite:{}", s.replace(' ', "_"))
+        format!("err other:{}", e.replace(' ', "_"))
     }
 }
 
-fn v_set(rs: &[(u64, u64)]) -> RangeInclusiveSet<CrsqlDbVersion> {
-    rs.iter().map(|r| CrsqlDbVersion(r.0)..=CrsqlDbVersion(r.1)).collect()
+struct Real {
+    n: &'static NodeCtx,
+    actor: ActorId,
 }
 
 impl Real {
     fn new() -> Result<Self, String> {
-        let (dir, conn) = open_db()?;
-        Ok(Real { dir, conn, bv: BookedVersions::new(actor()) })
+        Ok(Real { n: node()?, actor: fresh_actor() })
     }
 
-    /// what `process_multiple_changes` does for complete / cleared changesets covering `rs`
-    fn insert(&mut self, rs: &[(u64, u64)]) -> Result<(), rusqlite::Error> {
-        let max0 = self.bv.last();
-        let tx = InterruptibleTransaction::new(self.conn.immediate_transaction()?, None, "c02");
-        for r in rs {
-            let end = CrsqlDbVersion(r.1);
-            if Some(end) > max0 {
-                process_empty_version(&tx, actor(), &end)?;
-            }
-        }
-        let mut snap = self.bv.snapshot();
-        match snap.insert_db(&tx, v_set(rs)) {
-            Ok(()) => {
-                tx.commit()?;
-                self.bv.commit_snapshot(snap);
-                Ok(())
-            }
-            Err(e) => {
-                // the real caller drops the snapshot (debug_assert in its Drop) and rolls back
-                std::mem::forget(snap);
-                drop(tx);
-                Err(e)
-            }
-        }
+    /// a copy of the live in-memory view of the origin
+    fn bv(&self) -> BookedVersions {
+        let actor = self.actor;
+        self.n.rt.block_on(async {
+            let booked = self.n.bookie.write::<&str, _>("c02", None).await.ensure(actor);
+            let g = booked.read::<&str, _>("c02", None).await;
+            (*g).clone()
+        })
     }
 
-    /// what `process_multiple_changes` does for one incomplete changeset
-    fn partial(&mut self, v: u64, seqs: (u64, u64), last: u64) -> Result<&'static str, rusqlite::Error> {
+    /// one real batch, then the clear-buffered-meta job for every request the batch scheduled
+    fn deliver(&self, batch: Vec<ChangeV1>) -> Result<(), String> {
+        let agent = self.n.agent.clone();
+        let bookie = self.n.bookie.clone();
+        let items: Vec<_> = batch.into_iter().map(|c| (c, ChangeSource::Sync, Instant::now())).collect();
+        let res = self.n.rt.block_on(async move { process_multiple_changes(agent, bookie, items, Duration::from_secs(60)).await });
+        let mut opts = self.n.opts.lock().unwrap();
+        // apply requests: the background applier is not running (the partial stays "apply pending")
+        self.n.rt.block_on(async { tokio::time::sleep(Duration::from_millis(0)).await });
+        while opts.rx_apply.try_recv().is_ok() {}
+        let mut clears = vec![];
+        while let Ok(req) = opts.rx_clear_buf.try_recv() {
+            clears.push(req);
+        }
+        drop(opts);
+        for (actor, versions) in clears {
+            self.clear_buffered_meta(actor, versions.start().0, versions.end().0)?;
+        }
+        res.map_err(|e| format!("{e}"))
+    }
+
+    /// the body of `clear_buffered_meta_loop` for one request, run to completion
+    fn clear_buffered_meta(&self, actor: ActorId, lo: u64, hi: u64) -> Result<(), String> {
+        let pool = self.n.agent.pool().clone();
+        self.n
+            .rt
+            .block_on(async move {
+                let mut conn = pool.write_low().await.map_err(|e| e.to_string())?;
+                loop {
+                    let tx = conn.immediate_transaction().map_err(|e| e.to_string())?;
+                    let a = tx
+                        .prepare_cached("DELETE FROM __corro_seq_bookkeeping WHERE (site_id, db_version, start_seq) IN (SELECT site_id, db_version, start_seq FROM __corro_seq_bookkeeping WHERE site_id = ? AND db_version >= ? AND db_version <= ? LIMIT ?)")
+                        .and_then(|mut st| st.execute(rusqlite::params![actor, lo, hi, 1000]))
+                        .map_err(|e| e.to_string())?;
+                    let b = tx
+                        .prepare_cached("DELETE FROM __corro_buffered_changes WHERE (site_id, db_version, seq) IN (SELECT site_id, db_version, seq FROM __corro_buffered_changes WHERE site_id = ? AND db_version >= ? AND db_version <= ? LIMIT ?)")
+                        .and_then(|mut st| st.execute(rusqlite::params![actor, lo, hi, 1000]))
+                        .map_err(|e| e.to_string())?;
+                    tx.commit().map_err(|e| e.to_string())?;
+                    if a < 1000 && b < 1000 {
+                        return Ok::<(), String>(());
+                    }
+                }
+            })
+    }
+
+    /// a batch of whole (cleared) versions, one `Changeset::Empty` per range
+    fn insert(&self, rs: &[(u64, u64)]) -> Result<&'static str, String> {
+        let bv = self.bv();
+        let all_known = rs.iter().all(|r| bv.contains_all(CrsqlDbVersion(r.0)..=CrsqlDbVersion(r.1), None));
+        let batch = rs
+            .iter()
+            .map(|r| ChangeV1 { actor_id: self.actor, changeset: Changeset::Empty { versions: CrsqlDbVersion(r.0)..=CrsqlDbVersion(r.1), ts: None } })
+            .collect();
+        self.deliver(batch)?;
+        Ok(if all_known { "skip" } else { "ok" })
+    }
+
+    /// one chunk of a version, carrying no changes
+    fn partial(&self, v: u64, seqs: (u64, u64), last: u64) -> Result<&'static str, String> {
         let ver = CrsqlDbVersion(v);
         let sr = CrsqlSeq(seqs.0)..=CrsqlSeq(seqs.1);
-        if self.bv.contains_all(ver..=ver, Some(&sr)) {
-            return Ok("skip");
-        }
-        if seqs.1 < seqs.0 {
-            return Ok("invalid");
-        }
-        let tx = InterruptibleTransaction::new(self.conn.immediate_transaction()?, None, "c02");
-        let parts = ChangesetParts { version: ver, changes: vec![], seqs: sr, last_seq: CrsqlSeq(last), ts: Timestamp::zero() };
-        let known = process_incomplete_version(&tx, actor(), &parts)?;
-        let partial = match known {
-            KnownDbVersion::Partial(p) => p,
-            _ => unreachable!("process_incomplete_version returns Partial"),
-        };
-        let mut snap = self.bv.snapshot();
-        match snap.insert_db(&tx, v_set(&[(v, v)])) {
-            Ok(()) => {
-                tx.commit()?;
-                self.bv.commit_snapshot(snap);
-                self.bv.insert_partial(ver, partial);
-                Ok("ok")
-            }
-            Err(e) => {
-                std::mem::forget(snap);
-                drop(tx);
-                Err(e)
-            }
-        }
+        let known = self.bv().contains_all(ver..=ver, Some(&sr));
+        let batch = vec![ChangeV1 {
+            actor_id: self.actor,
+            changeset: Changeset::Full { version: ver, changes: vec![], seqs: sr, last_seq: CrsqlSeq(last), ts: Timestamp::zero() },
+        }];
+        self.deliver(batch)?;
+        Ok(if known {
+            "skip"
+        } else if seqs.0 == 0 && seqs.1 == last {
+            "ok" // complete and empty: a cleared version
+        } else if seqs.1 < seqs.0 {
+            "invalid"
+        } else {
+            "ok"
+        })
     }
 
-    fn reload(&mut self) -> Result<(), rusqlite::Error> {
-        self.bv = BookedVersions::from_conn(&self.conn, actor())?;
-        Ok(())
+    /// what a restart does for this origin
+    fn reload(&self) -> Result<(), String> {
+        let actor = self.actor;
+        let pool = self.n.agent.pool().clone();
+        let bookie = self.n.bookie.clone();
+        self.n.rt.block_on(async move {
+            let conn = pool.read().await.map_err(|e| e.to_string())?;
+            let bv = BookedVersions::from_conn(&conn, actor).map_err(|e| e.to_string())?;
+            bookie.write::<&str, _>("c02", None).await.replace_actor(actor, bv);
+            Ok::<(), String>(())
+        })
+    }
+
+    fn with_conn<T>(&self, f: impl FnOnce(&rusqlite::Connection) -> rusqlite::Result<T>) -> T {
+        let pool = self.n.agent.pool().clone();
+        self.n.rt.block_on(async move {
+            let conn = pool.read().await.expect("read connection");
+            f(&conn).expect("bookkeeping query")
+        })
     }
 
     fn gaps_rows(&self) -> Vec<(u64, u64)> {
-        let mut st = self
-            .conn
-            .prepare_cached("SELECT start, end FROM __corro_bookkeeping_gaps WHERE actor_id = ? ORDER BY start")
-            .unwrap();
-        st.query_map([actor()], |row| Ok((row.get::<_, CrsqlDbVersion>(0)?.0, row.get::<_, CrsqlDbVersion>(1)?.0)))
-            .unwrap()
-            .collect::<Result<Vec<_>, _>>()
-            .unwrap()
-    }
-
-    fn foreign_gap_rows(&self) -> i64 {
-        self.conn
-            .query_row("SELECT count(*) FROM __corro_bookkeeping_gaps WHERE actor_id != ?", [actor()], |r| r.get(0))
-            .unwrap()
+        let actor = self.actor;
+        self.with_conn(|conn| {
+            let mut st = conn.prepare_cached("SELECT start, end FROM __corro_bookkeeping_gaps WHERE actor_id = ? ORDER BY start")?;
+            let rows = st.query_map([actor], |row| Ok((row.get::<_, CrsqlDbVersion>(0)?.0, row.get::<_, CrsqlDbVersion>(1)?.0)))?;
+            rows.collect()
+        })
     }
 
     fn seq_rows(&self) -> Vec<(u64, u64, u64, u64)> {
-        let mut st = self
-            .conn
-            .prepare_cached(
+        let actor = self.actor;
+        self.with_conn(|conn| {
+            let mut st = conn.prepare_cached(
                 "SELECT db_version, start_seq, end_seq, last_seq FROM __corro_seq_bookkeeping WHERE site_id = ? ORDER BY db_version, start_seq",
-            )
-            .unwrap();
-        st.query_map([actor()], |row| {
-            Ok((
-                row.get::<_, CrsqlDbVersion>(0)?.0,
-                row.get::<_, CrsqlSeq>(1)?.0,
-                row.get::<_, CrsqlSeq>(2)?.0,
-                row.get::<_, CrsqlSeq>(3)?.0,
-            ))
+            )?;
+            let rows = st.query_map([actor], |row| {
+                Ok((
+                    row.get::<_, CrsqlDbVersion>(0)?.0,
+                    row.get::<_, CrsqlSeq>(1)?.0,
+                    row.get::<_, CrsqlSeq>(2)?.0,
+                    row.get::<_, CrsqlSeq>(3)?.0,
+                ))
+            })?;
+            rows.collect()
         })
-        .unwrap()
-        .collect::<Result<Vec<_>, _>>()
-        .unwrap()
     }
 
     fn dbv(&self) -> Option<u64> {
         use rusqlite::OptionalExtension;
-        self.conn
-            .query_row("SELECT db_version FROM crsql_db_versions WHERE site_id = ?", [actor()], |r| r.get::<_, CrsqlDbVersion>(0))
-            .optional()
-            .unwrap()
-            .map(|v| v.0)
+        let actor = self.actor;
+        self.with_conn(|conn| {
+            conn.query_row("SELECT db_version FROM crsql_db_versions WHERE site_id = ?", [actor], |r| r.get::<_, CrsqlDbVersion>(0))
+                .optional()
+                .map(|o| o.map(|v| v.0))
+        })
     }
 
-    fn needed(&self) -> Vec<(u64, u64)> {
-        self.bv.needed().iter().map(|r| (r.start().0, r.end().0)).collect()
-    }
-
-    fn partials(&self) -> Vec<(u64, u64, Vec<(u64, u64)>)> {
-        self.bv
-            .partials
-            .iter()
-            .map(|(v, p)| (v.0, p.last_seq.0, p.seqs.iter().map(|r| (r.start().0, r.end().0)).collect()))
-            .collect()
-    }
-
-    fn show(&self) -> String {
-        let ps: Vec<String> = self.partials().iter().map(|(v, l, s)| format!("{v}/{l}/{}", show_ranges(s))).collect();
+    fn show(&self, bv: &BookedVersions) -> String {
+        let ps: Vec<String> = partials_of(bv).iter().map(|(v, l, s)| format!("{v}/{l}/{}", show_ranges(s))).collect();
         let sr: Vec<String> = self.seq_rows().iter().map(|(v, s, e, l)| format!("{v}/{s}-{e}/{l}")).collect();
         format!(
             "gaps={} needed={} max={} dbv={} partials={} seqrows={}",
             show_ranges(&self.gaps_rows()),
-            show_ranges(&self.needed()),
-            show_opt(self.bv.last().map(|v| v.0)),
+            show_ranges(&needed_of(bv)),
+            show_opt(bv.last().map(|v| v.0)),
             show_opt(self.dbv()),
             show_list(&ps, ";"),
             show_list(&sr, ";")
         )
     }
+
+    fn sync(&self) -> SyncView {
+        let st = self.n.rt.block_on(generate_sync(&self.n.bookie, self.n.agent.actor_id()));
+        let a = self.actor;
+        let head = st.heads.get(&a).map(|v| v.0);
+        let need = st.need.get(&a).map(|v| v.iter().map(|r| (r.start().0, r.end().0)).collect()).unwrap_or_default();
+        let mut pneed: Vec<(u64, Vec<(u64, u64)>)> = st
+            .partial_need
+            .get(&a)
+            .map(|m| m.iter().map(|(v, rs)| (v.0, rs.iter().map(|r| (r.start().0, r.end().0)).collect())).collect())
+            .unwrap_or_default();
+        pneed.sort();
+        SyncView { head, need, pneed }
+    }
+}
+
+impl Drop for Real {
+    /// the node forgets the origin of the finished case
+    fn drop(&mut self) {
+        let actor = self.actor;
+        let pool = self.n.agent.pool().clone();
+        let bookie = self.n.bookie.clone();
+        let _ = self.n.rt.block_on(async move {
+            bookie.write::<&str, _>("c02", None).await.remove(&actor);
+            let conn = pool.write_low().await.map_err(|e| e.to_string())?;
+            for sql in [
+                "DELETE FROM __corro_bookkeeping_gaps WHERE actor_id = ?",
+                "DELETE FROM __corro_seq_bookkeeping WHERE site_id = ?",
+                "DELETE FROM crsql_db_versions WHERE site_id = ?",
+            ] {
+                conn.execute(sql, [actor]).map_err(|e| e.to_string())?;
+            }
+            Ok::<(), String>(())
+        });
+    }
+}
+
+fn needed_of(bv: &BookedVersions) -> Vec<(u64, u64)> {
+    bv.needed().iter().map(|r| (r.start().0, r.end().0)).collect()
+}
+
+fn partials_of(bv: &BookedVersions) -> Vec<(u64, u64, Vec<(u64, u64)>)> {
+    bv.partials.iter().map(|(v, p)| (v.0, p.last_seq.0, p.seqs.iter().map(|r| (r.start().0, r.end().0)).collect())).collect()
 }
 
 fn show_opt(x: Option<u64>) -> String {
@@ -310,35 +383,15 @@ struct SyncView {
     pneed: Vec<(u64, Vec<(u64, u64)>)>,
 }
 
-fn real_sync(rt: &tokio::runtime::Runtime, bv: &BookedVersions) -> SyncView {
-    let mut map = HashMap::new();
-    map.insert(actor(), bv.clone());
-    let bookie = Bookie::new(map);
-    let me = ActorId(uuid::Uuid::from_u128(1));
-    let st = rt.block_on(generate_sync(&bookie, me));
-    let head = st.heads.get(&actor()).map(|v| v.0);
-    let need = st.need.get(&actor()).map(|v| v.iter().map(|r| (r.start().0, r.end().0)).collect()).unwrap_or_default();
-    let mut pneed: Vec<(u64, Vec<(u64, u64)>)> = st
-        .partial_need
-        .get(&actor())
-        .map(|m| m.iter().map(|(v, rs)| (v.0, rs.iter().map(|r| (r.start().0, r.end().0)).collect())).collect())
-        .unwrap_or_default();
-    pneed.sort();
-    SyncView { head, need, pneed }
-}
-
 // ------------------------------------------------------------------ oracle checks
 
 /// state checks after every op: durable rows = in-memory view = what the history says
-fn check_state(real: &Real, h: &Hist, fails: &mut Vec<String>) {
+fn check_state(real: &Real, bv: &BookedVersions, h: &Hist, fails: &mut Vec<String>) {
     let rows = real.gaps_rows();
-    let needed = real.needed();
+    let needed = needed_of(bv);
     let head = h.head();
     if rows != needed {
         fails.push(format!("gaps rows {} differ from in-memory needed {}", show_ranges(&rows), show_ranges(&needed)));
-    }
-    if real.foreign_gap_rows() != 0 {
-        fails.push("gaps rows of another actor appeared".into());
     }
     // pairwise disjoint, non-adjacent, forward, inside 1..=head
     let mut prev_end: Option<u64> = None;
@@ -353,8 +406,8 @@ fn check_state(real: &Real, h: &Hist, fails: &mut Vec<String>) {
         }
         prev_end = Some(r.1);
     }
-    if real.bv.last().map(|v| v.0) != head {
-        fails.push(format!("head is {} but the largest version seen is {}", show_opt(real.bv.last().map(|v| v.0)), show_opt(head)));
+    if bv.last().map(|v| v.0) != head {
+        fails.push(format!("head is {} but the largest version seen is {}", show_opt(bv.last().map(|v| v.0)), show_opt(head)));
     }
     let want = h.needed();
     if points(&needed) != want {
@@ -362,7 +415,7 @@ fn check_state(real: &Real, h: &Hist, fails: &mut Vec<String>) {
     }
     // contains_version agrees with the history on 1..=head+2
     for v in 1..=head.unwrap_or(0) + 2 {
-        let c = real.bv.contains_version(&CrsqlDbVersion(v));
+        let c = bv.contains_version(&CrsqlDbVersion(v));
         let w = h.touched.contains(&v);
         if c != w {
             fails.push(format!("contains_version({v}) = {c} but the history says {w}"));
@@ -370,7 +423,7 @@ fn check_state(real: &Real, h: &Hist, fails: &mut Vec<String>) {
         }
     }
     // partials: in memory and as rows
-    let ps = real.partials();
+    let ps = partials_of(bv);
     let want_p: Vec<(u64, u64, Vec<(u64, u64)>)> = h.partial.iter().map(|(v, (s, l))| (*v, *l, to_ranges(s))).collect();
     if ps != want_p {
         fails.push(format!("in-memory partials {ps:?} differ from the chunks received {want_p:?}"));
@@ -400,7 +453,7 @@ fn check_sync(sv: &SyncView, h: &Hist, fails: &mut Vec<String>) {
         let missing = h.missing_seqs(v);
         let class = if !h.touched.contains(&v) {
             "need"
-        } else if h.partial.contains_key(&v) && !h.complete.contains(&v) && !missing.is_empty() {
+        } else if h.partial.contains_key(&v) && !missing.is_empty() {
             "partial"
         } else {
             "held"
@@ -490,8 +543,10 @@ fn gen_insert(rng: &mut Rng, g: &mut GenState, bias: bool, last_op: &Option<Stri
         _ => 4,
     };
     let mut rs = vec![];
+    let open: Vec<u64> = g.partial.keys().copied().filter(|v| g.incomplete(*v)).collect();
     for _ in 0..n {
-        let a = gen_version(rng, g, bias);
+        // now and then: the whole version arrives while a part of it is buffered
+        let a = if !open.is_empty() && rng.chance(1, 6) { *rng.pick(&open) } else { gen_version(rng, g, bias) };
         let len = match rng.below(8) {
             0..=3 => 0,
             4..=5 => rng.range(1, 2),
@@ -499,20 +554,10 @@ fn gen_insert(rng: &mut Rng, g: &mut GenState, bias: bool, last_op: &Option<Stri
             _ => rng.range(4, 15),
         };
         let (lo, hi) = if rng.chance(1, 2) { (a, (a + len).min(VMAX)) } else { (a.saturating_sub(len).max(1), a) };
-        // a complete changeset over a version that is still an incomplete partial leaves the in-memory
-        // partial behind (reported separately); the generator stays out of that region
-        let (mut lo2, mut hi2) = (lo, hi);
-        while lo2 <= hi2 && g.incomplete(hi2) {
-            if hi2 == 0 { break; }
-            hi2 -= 1;
-        }
-        while lo2 <= hi2 && g.incomplete(lo2) {
-            lo2 += 1;
-        }
-        if lo2 > hi2 || lo2 == 0 || (lo2..=hi2).any(|v| g.incomplete(v)) {
+        if lo == 0 || lo > hi {
             continue;
         }
-        rs.push((lo2, hi2));
+        rs.push((lo, hi));
     }
     if rs.is_empty() {
         // fall back to a fresh version above everything
@@ -520,8 +565,12 @@ fn gen_insert(rng: &mut Rng, g: &mut GenState, bias: bool, last_op: &Option<Stri
         rs.push((v, v));
     }
     for r in &rs {
-        for v in r.0..=r.1 {
-            g.touched.insert(v);
+        let known = (r.0..=r.1).all(|v| g.touched.contains(&v) && !g.incomplete(v));
+        if !known {
+            for v in r.0..=r.1 {
+                g.touched.insert(v);
+                g.partial.remove(&v);
+            }
         }
     }
     format!("insert {}", show_ranges(&rs))
@@ -583,7 +632,10 @@ fn gen_partial(rng: &mut Rng, g: &mut GenState, salt: u64, bias: bool) -> String
             None => true,
             Some((s, _)) => (lo..=hi).all(|q| s.contains(&q)),
         };
-    if !known && lo <= hi {
+    if !known && lo == 0 && hi == last {
+        g.touched.insert(v);
+        g.partial.remove(&v);
+    } else if !known && lo <= hi {
         g.touched.insert(v);
         let e = g.partial.entry(v).or_insert_with(|| (BTreeSet::new(), last));
         for q in lo..=hi {
@@ -594,10 +646,6 @@ fn gen_partial(rng: &mut Rng, g: &mut GenState, salt: u64, bias: bool) -> String
 }
 
 // ------------------------------------------------------------------ Prop
-
-fn runtime() -> tokio::runtime::Runtime {
-    tokio::runtime::Builder::new_current_thread().enable_all().build().expect("tokio runtime")
-}
 
 /// all single ranges lo..=hi over 1..=n
 fn single_ranges(n: u64) -> Vec<(u64, u64)> {
@@ -629,7 +677,9 @@ impl Prop for C02 {
         let _ = std::fs::create_dir_all(TMP_ROOT);
     }
     fn end(&self) {
-        let _ = std::fs::remove_dir_all(format!("{TMP_ROOT}/c02-{}-template", std::process::id()));
+        if let Ok(n) = node() {
+            let _ = std::fs::remove_dir_all(&n.dir);
+        }
     }
     fn enumerated_case(&self, tier: Tier, index: usize) -> Option<Vec<String>> {
         // every sequence of <= 3 single-range insertions over versions 1..=6 (thorough) / <= 2 over 1..=4 (quick)
@@ -685,11 +735,10 @@ impl Prop for C02 {
     }
     fn exec_case(&self, ops: &[String]) -> CaseResult {
         let mut r = CaseResult::default();
-        let rt = runtime();
-        let mut real = match Real::new() {
+        let real = match Real::new() {
             Ok(x) => x,
             Err(e) => {
-                r.inconclusive = Some(format!("db-setup:{}", e.replace(' ', "_")));
+                r.inconclusive = Some(format!("node-setup:{}", e.replace(' ', "_")));
                 return r;
             }
         };
@@ -702,18 +751,26 @@ impl Prop for C02 {
                 ["insert", rs] => match parse_ranges(rs) {
                     Some(rs) if !rs.is_empty() && rs.iter().all(|x| 1 <= x.0 && x.0 <= x.1) => {
                         let rows0 = real.gaps_rows();
+                        // what the history expects: ranges not yet known as a whole are processed
+                        let processed: Vec<(u64, u64)> = rs.iter().copied().filter(|x| !(x.0..=x.1).all(|v| h.knows_whole(v))).collect();
                         let status = match real.insert(&rs) {
-                            Ok(()) => {
-                                for x in &rs {
+                            Ok(s) => {
+                                if (s == "skip") != processed.is_empty() {
+                                    fails.push(format!("whole versions {} were {s} but the history says {} of them bring something new", show_ranges(&rs), processed.len()));
+                                }
+                                for x in &processed {
                                     for v in x.0..=x.1 {
-                                        h.touched.insert(v);
-                                        h.complete.insert(v);
+                                        if h.partial.contains_key(&v) {
+                                            r.tags.push(if h.missing_seqs(v).is_empty() { "whole-over-complete-partial".into() } else { "whole-over-incomplete-partial".into() });
+                                        }
+                                        h.whole(v);
                                     }
                                 }
-                                "ok".to_string()
+                                r.tags.push(format!("insert-{s}"));
+                                s.to_string()
                             }
                             Err(e) => {
-                                fails.push(format!("insert_db failed: {e}"));
+                                fails.push(format!("process_multiple_changes failed: {e}"));
                                 err_kind(&e)
                             }
                         };
@@ -722,48 +779,69 @@ impl Prop for C02 {
                             r.tags.push("gaps-changed".into());
                         }
                         r.tags.push(format!("insert-ranges:{}", rs.len()));
-                        check_state(&real, &h, &mut fails);
-                        format!("{status} {}", real.show())
+                        let bv = real.bv();
+                        check_state(&real, &bv, &h, &mut fails);
+                        format!("{status} {}", real.show(&bv))
                     }
                     _ => "bad-op".into(),
                 },
                 ["partial", v, seqs, last] => match (v.parse::<u64>(), parse_range(seqs), last.parse::<u64>()) {
                     (Ok(v), Some(seqs), Ok(last)) if v >= 1 => {
-                        let expect_skip = h.knows(v, seqs.0, seqs.1);
+                        let expect = if h.knows(v, seqs.0, seqs.1) {
+                            "skip"
+                        } else if seqs.0 == 0 && seqs.1 == last {
+                            "whole"
+                        } else if seqs.1 < seqs.0 {
+                            "invalid"
+                        } else {
+                            "chunk"
+                        };
                         let status = match real.partial(v, seqs, last) {
                             Ok(s) => {
-                                if (s == "skip") != expect_skip {
-                                    fails.push(format!("partial chunk {v} {}-{} was {s} but the history says known={expect_skip}", seqs.0, seqs.1));
+                                let agree = match expect {
+                                    "skip" => s == "skip",
+                                    "invalid" => s == "invalid",
+                                    _ => s == "ok",
+                                };
+                                if !agree {
+                                    fails.push(format!("chunk {v} {}-{} was {s} but the history says {expect}", seqs.0, seqs.1));
                                 }
-                                if s == "ok" {
-                                    h.touched.insert(v);
-                                    let e = h.partial.entry(v).or_insert_with(|| (BTreeSet::new(), last));
-                                    for q in seqs.0..=seqs.1 {
-                                        e.0.insert(q);
+                                match expect {
+                                    "whole" => {
+                                        h.whole(v);
+                                        r.tags.push("partial-complete-empty-chunk".into());
                                     }
-                                    r.tags.push(if h.missing_seqs(v).is_empty() { "partial-completed".into() } else { "partial-incomplete".into() });
-                                    if h.missing_seqs(v) == [0u64].into_iter().collect() {
-                                        r.tags.push("partial-missing-only-seq0".into());
+                                    "chunk" => {
+                                        h.touched.insert(v);
+                                        let e = h.partial.entry(v).or_insert_with(|| (BTreeSet::new(), last));
+                                        for q in seqs.0..=seqs.1 {
+                                            e.0.insert(q);
+                                        }
+                                        r.tags.push(if h.missing_seqs(v).is_empty() { "partial-completed".into() } else { "partial-incomplete".into() });
+                                        if h.missing_seqs(v) == [0u64].into_iter().collect() {
+                                            r.tags.push("partial-missing-only-seq0".into());
+                                        }
                                     }
-                                } else {
-                                    r.tags.push(format!("partial-{s}"));
+                                    other => r.tags.push(format!("partial-{other}")),
                                 }
                                 s.to_string()
                             }
                             Err(e) => {
-                                fails.push(format!("partial chunk failed: {e}"));
+                                fails.push(format!("process_multiple_changes failed: {e}"));
                                 err_kind(&e)
                             }
                         };
-                        check_state(&real, &h, &mut fails);
-                        format!("{status} {}", real.show())
+                        let bv = real.bv();
+                        check_state(&real, &bv, &h, &mut fails);
+                        format!("{status} {}", real.show(&bv))
                     }
                     _ => "bad-op".into(),
                 },
                 ["reload"] => match real.reload() {
                     Ok(()) => {
-                        check_state(&real, &h, &mut fails);
-                        format!("ok {}", real.show())
+                        let bv = real.bv();
+                        check_state(&real, &bv, &h, &mut fails);
+                        format!("ok {}", real.show(&bv))
                     }
                     Err(e) => {
                         fails.push(format!("from_conn failed: {e}"));
@@ -771,7 +849,7 @@ impl Prop for C02 {
                     }
                 },
                 ["sync"] => {
-                    let sv = real_sync(&rt, &real.bv);
+                    let sv = real.sync();
                     check_sync(&sv, &h, &mut fails);
                     if !sv.pneed.is_empty() {
                         r.tags.push("sync-with-partial-need".into());
